@@ -27,10 +27,11 @@ const (
 	stLockWait                  // TryLock failed; waiting for an Unlock of that lock
 	stNative                    // blocked (or about to block) in a native channel/select/library operation
 	stDead
+	stStalled // held back by an injected stall fault until a simulated instant
 )
 
 func (s taskState) String() string {
-	return [...]string{"running", "parked", "lockwait", "native", "dead"}[s]
+	return [...]string{"running", "parked", "lockwait", "native", "dead", "stalled"}[s]
 }
 
 const (
@@ -104,7 +105,32 @@ type Config struct {
 	PCTDepth int
 	SitePct  int // percent of instrumented pre-yield sites that are scheduling points
 	SiteSeed uint64
+	// StallPerMille > 0 enables the "stalled task" fault: each time a task is
+	// about to be released it is instead held back, with this probability, for
+	// a tape-chosen simulated duration (a slow or descheduled node).
+	StallPerMille int
 }
+
+// Stall is one injected stall: task ID held back during [From, To).
+type Stall struct {
+	Task     string
+	From, To time.Duration
+}
+
+// AnyStall reports whether some task was held back by a stall fault during
+// [from, to] - timing oracles skip operations that overlap one.
+func (s *Sim) AnyStall(from, to time.Duration) bool {
+	s.mu.Lock()
+	defer s.mu.Unlock()
+	for _, st := range s.Stalls {
+		if st.From <= to && st.To >= from {
+			return true
+		}
+	}
+	return false
+}
+
+var stallDurations = []time.Duration{time.Millisecond, 20 * time.Millisecond, 300 * time.Millisecond, 3 * time.Second}
 
 // Sim is one simulated run.
 type Sim struct {
@@ -140,6 +166,7 @@ type Sim struct {
 	Switches map[[2]int]int
 	memState map[uintptr]*memLoc
 	MemOn    bool
+	Stalls   []Stall
 }
 
 var curSim atomic.Pointer[Sim]
@@ -622,6 +649,32 @@ func (s *Sim) Run(done func() bool) {
 		c := en[k]
 		s.Step++
 		te := TraceEntry{Step: s.Step, ID: c.id(), Now: int64(now.Sub(s.Start))}
+		if c.t != nil && s.Cfg.StallPerMille > 0 && len(s.Stalls) < 8 &&
+			s.Tape.Pick("stall", 1000, func(r *rand.Rand) int {
+				if r.IntN(1000) < s.Cfg.StallPerMille {
+					return 0
+				}
+				return 1 + r.IntN(999)
+			}) == 0 {
+			// stall fault: hold this task back instead of releasing it
+			d := stallDurations[s.Tape.Intn("stall", len(stallDurations))]
+			t := c.t
+			s.mu.Lock()
+			t.state = stStalled
+			s.Stalls = append(s.Stalls, Stall{Task: t.ID, From: now.Sub(s.Start), To: now.Sub(s.Start) + d})
+			s.Counters["fault:task-stalled"]++
+			s.mu.Unlock()
+			s.Step++
+			s.note(TraceEntry{Step: s.Step, Kind: 'S', ID: t.ID, Site: t.site, Now: int64(now.Sub(s.Start))})
+			s.AddEvent("stall-end:"+t.ID, d, func() {
+				s.mu.Lock()
+				if t.state == stStalled {
+					t.state = stParked
+				}
+				s.mu.Unlock()
+			})
+			continue
+		}
 		if c.t != nil {
 			te.Kind, te.Site = 'T', c.t.site
 			s.mu.Lock()
@@ -756,7 +809,7 @@ func (s *Sim) Shutdown() {
 	s.dying = true
 	var kill []*Task
 	for _, t := range s.all {
-		if t.state == stParked || t.state == stLockWait {
+		if t.state == stParked || t.state == stLockWait || t.state == stStalled {
 			kill = append(kill, t)
 		}
 	}
